@@ -27,7 +27,7 @@ LEVEL = "model_checking"
 PREFIXES = ("SYM", "FUN", "QTY", "SYS", "", "C", "VEC")
 K_QUICK = [0, 9, 99, 756, 950, 999, 4000, 9500, 30000]
 FUNC_LEVELS_QUICK = {950, 9500}
-SCRATCH = os.path.join(ROOT, "scratch")
+SCRATCH = os.environ.get("VERIF_SCRATCH_DIR") or os.path.join(ROOT, "scratch")
 
 
 def counters() -> dict[str, int]:
